@@ -41,6 +41,48 @@ const c08Fixed = `
   > {sum: sumTo(parseInt(n))}
 }
 
+! gsum<T>(x: T, n: int): int {
+  if n <= 0 {
+    > 0
+  }
+  > n + gsum(x, n - 1)
+}
+
+! add2(a: int, b: int): int {
+  > a + b
+}
+
+# the same recursion reached through every way the interpreter has of calling a function:
+# as a callback of map / reduce / filter, through a pipe, through a generic call, inside an async block
+@ GET /fixed/cbsum/:n {
+  > {sum: map([parseInt(n), 3], sumTo)}
+}
+
+@ GET /fixed/redsum/:n {
+  > {sum: reduce(map([parseInt(n), parseInt(n)], sumTo), add2, 0)}
+}
+
+@ GET /fixed/pipesum/:n {
+  $ r = parseInt(n) |> sumTo
+  > {sum: r}
+}
+
+@ GET /fixed/gsum/:n {
+  > {sum: gsum("x", parseInt(n))}
+}
+
+@ GET /fixed/asyncsum/:n {
+  $ a = async {
+    > sumTo(parseInt(n))
+  }
+  $ b = async {
+    > sumTo(parseInt(n))
+  }
+  $ ra = await a
+  $ rb = await b
+  > {sum: ra + rb}
+}
+
 @ GET /fixed/genint/:v {
   $ r = identity(parseInt(v))
   > {v: r}
@@ -121,7 +163,7 @@ type c08Case struct {
 	Clients [][]c08Req `json:"clients"`
 }
 
-var c08Kinds = []string{"sum", "sum", "genint", "genstr", "wrapint", "wrapstr", "create", "create", "get", "get", "put", "del", "preview", "incr", "shared", "sget", "sget", "sput", "crud", "peek", "auto", "auto", "pure", "pure", "pure"}
+var c08Kinds = []string{"cbsum", "redsum", "pipesum", "gsum", "asyncsum", "sum", "sum", "genint", "genstr", "wrapint", "wrapstr", "create", "create", "get", "get", "put", "del", "preview", "incr", "shared", "sget", "sget", "sput", "crud", "peek", "auto", "auto", "pure", "pure", "pure"}
 
 func c08Profile() lang.Profile {
 	p := c02Profile()
@@ -159,8 +201,11 @@ func genC08(rt *rapid.T) c08Case {
 					rs = append(rs, c08Req{Kind: "auto"})
 				}
 				continue
-			case "sum":
+			case "sum", "cbsum", "redsum", "pipesum", "gsum", "asyncsum":
 				r.Arg = []int{0, 3, 45, 120, 200}[lang.Spread(rt, "n", 5)]
+				if r.Kind != "sum" {
+					r.Arg = []int{3, 45, 120, 200}[lang.Spread(rt, "n2", 4)]
+				}
 			case "pure":
 				if c.Gen == nil || len(c.Gen.Reqs) == 0 {
 					r.Kind = "genint"
@@ -204,8 +249,8 @@ func (c *c08Case) request(client int, r c08Req) *http.Request {
 	}
 	id := client*100 + r.Arg
 	switch r.Kind {
-	case "sum":
-		return mk("GET", fmt.Sprintf("/fixed/sum/%d", r.Arg), "")
+	case "sum", "cbsum", "redsum", "pipesum", "gsum", "asyncsum":
+		return mk("GET", fmt.Sprintf("/fixed/%s/%d", r.Kind, r.Arg), "")
 	case "genint", "wrapint":
 		return mk("GET", fmt.Sprintf("/fixed/%s/%d", r.Kind, client*7+r.Arg), "")
 	case "genstr", "wrapstr":
@@ -372,7 +417,7 @@ func runC08(c c08Case) evid.Outcome {
 			}
 			if g != e {
 				key := "c08.response-differs-under-concurrency"
-				if strings.Contains(g.Body, "depth") || strings.Contains(g.Body, "Internal") && r.Kind == "sum" {
+				if strings.Contains(g.Body, "depth") || strings.Contains(g.Body, "Internal") && strings.HasSuffix(r.Kind, "sum") {
 					key = "c08.concurrent-requests-share-depth-budget"
 				}
 				if r.Kind == "genint" || r.Kind == "genstr" || r.Kind == "wrapint" || r.Kind == "wrapstr" {
